@@ -39,6 +39,9 @@ func AllocSampling(small, large int) {}
 func Note(s string)                {}
 func Sources(b []byte) string      { panic("engine") }
 func Reseeded() bool               { panic("engine") }
+
+// RandMayFail: from here on every draw from crypto/rand may also fail (error, no bytes).
+func RandMayFail() { panic("engine") }
 func NonConstant(b []byte) bool    { panic("engine") }
 func Yield(tag string)             {}
 func Quiesce()                     {}
